@@ -296,6 +296,16 @@ func (r *rtRun) buildEnv() {
 		}
 		st[0] = uint64(prev)
 	})
+	def("peek", []api.ValueType{tI32}, []api.ValueType{tI32}, func(_ context.Context, mod api.Module, st []uint64) {
+		// the embedder reading guest memory through api.Memory
+		addr := uint32(st[0])
+		v, ok := uint32(0xfffffffd), false
+		if mem := memOf(mod); mem != nil {
+			v, ok = mem.ReadUint32Le(addr)
+		}
+		r.add(" host peek(%d) -> %#x,%v", addr, v, ok)
+		st[0] = uint64(v)
+	})
 	if !r.s.V1 { // multi-value and reference types do not exist under CoreFeaturesV1
 		def("pair", []api.ValueType{tI32}, []api.ValueType{tI32, tI64}, func(_ context.Context, _ api.Module, st []uint64) {
 			x := uint32(st[0])
